@@ -198,6 +198,8 @@ def rule_cursor(u, rep):
         rep.add("ANCHOR", "AlignedCursor::read", "no Read::read for AlignedCursor")
     else:
         ip, paths = run(u, b, sv)
+        read_mark = len(rep.findings)
+        read_paths = paths
         for p in paths:
             out = outcome_of(u, p)
             final = p.env.get("$p0") if hasattr(p, "env") else None
@@ -245,6 +247,18 @@ def rule_cursor(u, rep):
                 rep.oblige(okg)
                 if not okg:
                     rep.add("CUR-READ", "guard", "AlignedCursor::read computes len - pos without having established pos < len", b.loc())
+        # The count/eof/guard/state clauses above are matched symbolically. When a spelling escapes the matcher
+        # (checked_sub + filter, let-else, ...), the same clauses are decided by folding every path on a grid of states
+        # against the relation itself: Ok(0) and no move when pos >= len, else n = min(buf.len(), len - pos), pos += n.
+        sym = [f for f in rep.findings[read_mark:] if f.rule == "CUR-READ" and f.key in ("state", "eof", "count", "guard")]
+        if sym:
+            verdict = grid_read(u, read_paths, aj, b)
+            if verdict[0] == "agree":
+                for f in sym:
+                    rep.findings.remove(f)
+                rep.count("read_clauses_decided_on_grid", verdict[1])
+            elif verdict[0] == "differ":
+                rep.add("CUR-READ", "grid", "AlignedCursor::read: %s" % verdict[1], b.loc())
     # ------------------------------------------------------------------ seek
     b = ms.get("seek")
     if b is None:
@@ -302,9 +316,21 @@ def rule_cursor(u, rep):
         for p in paths:
             n += 1
             ok = p.kind == "ret" and p.value in (("bin", "Eq", OL, C(0)), ("bin", "Eq", C(0), OL), ("bin", "Le", OL, C(0)), ("bin", "Lt", OL, C(1)))
+            if not ok:
+                # any other spelling (matches!, match, if/else): fold value and conditions for a few lengths
+                try:
+                    ok = True
+                    for L in (0, 1, 2, 17, 1 << 40):
+                        env = {("old", "len"): L, ("old", "pos"): 0, ("old", "vec"): 4, "S": 16}
+                        hold = [q for q in paths if _holds(q, env)]
+                        if len(hold) != 1 or bool(_ev(hold[0].value, env)) != (L == 0):
+                            ok = False
+                except _Unk:
+                    ok = False
             rep.oblige(ok)
             if not ok:
                 rep.add("CUR-ACC", "is_empty", "AlignedCursor::is_empty must be `len == 0`; it returns %s" % label(p.value)[:120], b.loc())
+            break
     # a fresh cursor is the empty vector at position 0: nothing allocated counts as data
     for nm in ("new", "default", "with_capacity"):
         b = ms.get(nm)
@@ -358,6 +384,8 @@ def rule_cursor(u, rep):
     for nm, b in sorted(ms.items()):
         if nm == "write" or not any(p_.get("self") for p_ in b.thir["params"]):
             continue
+        if is_private_helper(u, b, ms):
+            continue            # not API: its effect is part of the methods that call it, where it is inlined
         try:
             ip, paths = run(u, b, sv)
         except interp.Unsupported as ex:
@@ -602,3 +630,92 @@ def rule_cursor_bounds(u, rep):
     rep.count("cursor_index_grid_points", n)
     rep.count("cursor_index_grid_points_undecided", und)
     return n
+
+
+def is_private_helper(u, b, ms):
+    """an inherent method declared without `pub` (read from the source line of its definition) that only `write`
+    calls among the cursor's methods"""
+    if "of_trait: true" in str(b.d.get("parent_kind")):
+        return False
+    try:
+        path = b.crate.files[b.sp[0]]
+        root = u.repo if hasattr(u, "repo") else None
+        import os
+        cands = [path, os.path.join(os.environ.get("REPO", "/repo"), path)]
+        text = None
+        for c in cands:
+            if os.path.exists(c):
+                text = open(c).read().splitlines()
+                break
+        if text is None:
+            return False
+        line = text[b.sp[1] - 1]
+    except Exception:
+        return False
+    head = line.split("fn ")[0]
+    if "pub" in head:
+        return False
+    callers = set()
+    for nm, mb in ms.items():
+        if mb is b:
+            continue
+        acc = []
+        rules_err.calls_in(mb.crate, mb.thir["root"], acc)
+        if any((rj or dj).get("id") == b.id for dj, rj, _e in acc):
+            callers.add(nm)
+    return bool(callers) and callers <= {"write"}
+
+
+def _holds(p, env):
+    """all path conditions of p hold in the concrete state env (raises _Unk on a condition outside the integer vocabulary)"""
+    for c in p.conds:
+        k = c[0]
+        if k in ("true", "false"):
+            if bool(_ev(c[1], env)) != (k == "true"):
+                return False
+        elif k == "eq":
+            if _ev(c[1], env) != _ev(c[2], env):
+                return False
+        elif k == "else":
+            for n_ in c[2]:
+                if n_[0] != "eq":
+                    raise _Unk()
+                if _ev(n_[1], env) == _ev(n_[2], env):
+                    return False
+        else:
+            raise _Unk()
+    return True
+
+
+def grid_read(u, paths, aj, b):
+    """('agree', points) | ('differ', description) | ('undecided', reason)"""
+    bufp = [p.get("pat", {}).get("name") for p in b.thir["params"] if not p.get("self")]
+    pts = 0
+    for S in (1, 16):
+        for V in (0, 1, 3):
+            cap = V * S
+            for L in sorted(set([0, min(1, cap), max(cap - 1, 0), cap])):
+                for P in sorted(set([0, 1, max(L - 1, 0), L, L + 1, cap, cap + 5, _M64])):
+                    for B in (0, 1, 3, 2 * S + 1):
+                        env = {("old", "pos"): P, ("old", "len"): L, ("old", "vec"): V, "S": S}
+                        for bn in bufp:
+                            env[("param", bn)] = B
+                        try:
+                            hold = [q for q in paths if _holds(q, env)]
+                            if len(hold) != 1:
+                                return ("undecided", "%d paths hold at pos=%d len=%d" % (len(hold), P, L))
+                            q = hold[0]
+                            out = outcome_of(u, q)
+                            if out[0] != "ok":
+                                return ("differ", "at position %d, length %d, buffer of %d bytes it does not return Ok (%s); std's cursor never fails a read" % (P, L, B, out[0]))
+                            final = q.env.get("$p0")
+                            ret = _ev(desat(out[1]), env)
+                            npos = _ev(desat(fld(final, aj, "pos")), env)
+                            nlen = _ev(desat(fld(final, aj, "len")), env)
+                        except _Unk:
+                            return ("undecided", "a value outside the integer vocabulary")
+                        want = min(B, L - P) if P < L else 0
+                        if (ret, npos, nlen) != (want, P + want, L):
+                            return ("differ", "at position %d, length %d, buffer of %d bytes it returns %d and ends at position %d, length %d; std's cursor returns %d and ends at position %d, length %d" % (P, L, B, ret, npos, nlen, want, P + want, L))
+                        pts += 1
+    return ("agree", pts)
